@@ -45,6 +45,12 @@ func genTarget(rng *rand.Rand) (target string, plain bool) {
 		for i := 0; i < n; i++ {
 			segs = append(segs, []string{"v1", "chat", "completions", "api", "generate", "x-y_z", "file.json", "a%20b", "%C3%A9"}[rng.Intn(9)])
 		}
+		if rng.Intn(4) == 0 {
+			// the remaining path itself starts like one of Olla's own routes (one Olla fronting
+			// another, a backend that happens to use these names): it is still just a path
+			own := [][]string{{"olla"}, {"olla", "proxy"}, {"olla", "openai"}, {"proxy"}, {"olla", "ollama", "api"}, {"internal", "health"}, {"route_prefix"}}[rng.Intn(7)]
+			segs = append(append([]string{}, own...), segs...)
+		}
 		return "/" + strings.Join(segs, "/"), true
 	}
 	n := 1 + rng.Intn(6)
@@ -92,7 +98,7 @@ func under(base, p string) bool {
 func TestC16(t *testing.T) {
 	world.Quiet()
 	run := rep.New("C16", "exploration",
-		"seeded raw-TCP request targets (dot segments, %2e%2e / %2E%2e / .%2e mixes, ..%2f, //, ;params, encoded slashes and backslashes, double encoding, NUL, unicode, 3 KB segments, absolute-form targets and Host headers naming a decoy listener; one third plain targets) x endpoints with base path '', '/', '/base/v1' (preserve_path on and off) and '/a/b/c/' x proxy and provider prefixes x both engines; oracle at the backend listeners: arrives on the configured endpoint, decoy never contacted, with preserve_path the dot-segment-resolved path lies under the base path, query byte-equal, plain targets follow the documented construction exactly; health and model-listing requests arrive at base path + configured relative path. distinct = distinct (engine, endpoint, prefix, target)")
+		"seeded raw-TCP request targets (dot segments, %2e%2e / %2E%2e / .%2e mixes, ..%2f, //, ;params, encoded slashes and backslashes, double encoding, NUL, unicode, 3 KB segments, absolute-form targets and Host headers naming a decoy listener; one third plain targets, a quarter of them starting like one of Olla's own route prefixes) x endpoints with base path '', '/', '/base/v1' (preserve_path on and off) and '/a/b/c/' x proxy and provider prefixes x both engines; oracle at the backend listeners: arrives on the configured endpoint, decoy never contacted, with preserve_path the dot-segment-resolved path lies under the base path, query byte-equal, plain targets follow the documented construction exactly; health and model-listing requests arrive at base path + configured relative path. distinct = distinct (engine, endpoint, prefix, target)")
 	seed := rep.Seed()
 	for ei, eng := range []string{"sherpa", "olla"} {
 		for di := range defs {
